@@ -287,6 +287,30 @@ def stepLine (_ : Unit) (op obs : String) : Unit × String :=
       ((), s!"wa=ok wb=ok wcodes={codesStr codes} encA={obsField obs "encA"} encB={obsField obs "encB"} psig={obsField obs "psig"}" ++
            readerHalf "ok" (a ++ b) (a ++ b) codes)
     | _, _, _ => ((), "bad-op")
+  | ["tr", fl, opts, pl, cut, rb] =>
+    let stack := fl.splitOn ","
+    match parsePayload pl, rb.toNat? with
+    | some p, some rbn =>
+      if !(stack.all isText) then ((), "bad-op") else
+      let enc := (encodeText stack opts 10240 (cutChunks "all" p)).flatten
+      let k := ((cut.drop 1).toString.toNat?).getD 0
+      let lineEnd : Nat := Id.run do   -- offset just after the (k+1)-th newline (or after the last one there is)
+        let mut seen := 0
+        let mut pos := 0
+        let mut i := 0
+        for b in enc do
+          i := i + 1
+          if b == 10 ∧ seen < k + 1 then
+            seen := seen + 1
+            pos := i
+        return pos
+      let keep := if cut.startsWith "l" then lineEnd
+                  else if cut.startsWith "-" then enc.length - k else enc.length * k / 1000
+      let (bl, layers, st) := peel (clientBlocks (enc.take keep) rbn) 0
+      let dec := bl.flatten
+      if st != "ok" then ((), s!"w=ok enc={enc.length} keep={keep} filters=-1 st=fatal")
+      else ((), s!"w=ok enc={enc.length} keep={keep} filters={layers} st=ok dec={sizeHash dec} full={if dec == p then 1 else 0}")
+    | _, _ => ((), "bad-op")
   | ["gz", hh, pl, tt, _] =>
     match LA.parseHex hh, parsePayload pl, LA.parseHex tt with
     | some h, some p, some t =>
